@@ -1,6 +1,6 @@
 """libext (C19): a module-level *literal* constant imported from another repo module
 (`from .sampling_context import LOG_PROBA_COL`) evaluates to that literal.  The core leaves such a
-name as an opaque ('modglobal', module, name) object.  Strictly additive: only literal constants."""
+name as an opaque ('modglobal', module, name) object.  SCOPE: active only for property C19 (ctx.prop); only literal constants."""
 import ast
 
 from pyvc import symexec
@@ -10,7 +10,7 @@ _orig_lookup = symexec.Executor.lookup
 
 def _lookup(self, st, name, node=None):
     v = _orig_lookup(self, st, name, node)
-    if v.kind == 'py' and v.py and v.py[0] == 'modglobal':
+    if self.ctx.prop == 'C19' and v.kind == 'py' and v.py and v.py[0] == 'modglobal':
         mi = self.repo.modules.get(v.py[1])
         g = mi.globals_.get(v.py[2]) if mi is not None else None
         if isinstance(g, ast.Constant) and isinstance(g.value, (str, int, float)) and not isinstance(g.value, bool):
